@@ -557,7 +557,11 @@ impl<'a> Parser<'a> {
     /// restored and None returned.
     fn unicode_escape_body(&mut self, unicode_mode: bool) -> Option<u32> {
         let save = self.pos;
-        if unicode_mode && self.peek() == Some(ch('{')) {
+        // regress documents (lib.rs: "the parser assumes the u flag") and pins in its tests that
+        // \u{H..} is a code point escape without the u flag as well; the reference model follows
+        // that documented extension. When the braces do not hold a valid code point the legacy
+        // reading (identity escape 'u') applies.
+        if self.peek() == Some(ch('{')) {
             self.pos += 1;
             let mut v: u32 = 0;
             let mut n = 0;
